@@ -23,7 +23,10 @@ import (
 // ---------------------------------------------------------------------------
 
 type SectionPlan struct {
-	Capacity    int64           `json:"capacity"` // <0: none
+	Capacity int64 `json:"capacity"` // <0: none
+	// ErrKind: which error VALUE armed disk faults return ("" = a private sentinel, "shortwrite" = io.ErrShortWrite,
+	// "eof" = io.EOF, "closedpipe" = io.ErrClosedPipe): it must be propagated whatever it is.
+	ErrKind     string          `json:"err_kind,omitempty"`
 	ContentSeed uint64          `json:"content_seed"`
 	Writers     []SecWriter     `json:"writers"`
 	Sched       engine.Schedule `json:"sched"`
@@ -39,6 +42,11 @@ type SecWriter struct {
 	// ("several structures share one file"); Off is then relative to the inner
 	// section and the inner end also bounds every byte.
 	Inner *SecInner `json:"inner,omitempty"`
+	// Observe: how often the cursor is observed with Seek(0, SeekCurrent) after
+	// an operation: "" = after every one, "some" = after about half (decided
+	// by a hash of the op index), "never". An observer is itself a call: a
+	// defect that a Seek happens to repair must not be hidden by it.
+	Observe string `json:"observe,omitempty"`
 }
 
 type SecInner struct {
@@ -81,6 +89,7 @@ func (Section) Decode(raw []byte) (engine.Plan, error) {
 func (Section) Generate(seed uint64, tier string) engine.Plan {
 	r := engine.NewPRNG(seed)
 	p := &SectionPlan{Capacity: -1, ContentSeed: r.Uint64()}
+	p.ErrKind = r.PickStr("", "", "", "shortwrite", "eof", "closedpipe")
 	nw := 1
 	switch r.Intn(10) {
 	case 0, 1, 2:
@@ -172,6 +181,7 @@ func (Section) Generate(seed uint64, tier string) engine.Plan {
 			p.Writers = append(p.Writers, w)
 			continue
 		}
+		w.Observe = r.PickStr("", "", "some", "some", "never")
 		nops := 1 + r.Intn(12)
 		if r.Chance(1, 5) {
 			nops = 1 + r.Intn(40)
@@ -317,7 +327,7 @@ func (Section) Generate(seed uint64, tier string) engine.Plan {
 					f.Kind = "withfull"
 				}
 				if shortNilCfg {
-					f.Kind = "short_nil"
+					f.Kind = r.PickStr("short_nil", "short_nil_each")
 				}
 				eff := int64(op.Len)
 				if eff > rem && rem > 0 {
@@ -336,7 +346,15 @@ func (Section) Generate(seed uint64, tier string) engine.Plan {
 				if f.Budget < 0 {
 					f.Budget = 0
 				}
-				f.Sticky = r.Chance(1, 3) && f.Kind != "short_nil"
+				f.Sticky = r.Chance(1, 3) && f.Kind != "short_nil" && f.Kind != "short_nil_each"
+				if f.Kind == "short_nil_each" {
+					// every underlying call accepts at most this many bytes: small, so
+					// that a request needs three or more calls
+					f.Budget = r.PickInt64(1, 1, 2, 3, 5, 8, eff/3, eff/4+1, eff/7+1)
+					if f.Budget < 1 {
+						f.Budget = 1
+					}
+				}
 				op.Fault = f
 			}
 			w.Ops = append(w.Ops, op)
@@ -388,12 +406,10 @@ type secModel struct {
 	sticky           error // the handle's sticky failure, once tripped
 }
 
-var errInjected = simio.ErrInjected
-
 // predictDisk mirrors the disk's fault model for ONE offered range: it is the
 // model's statement of what a faulty io.WriterAt does, not a copy of the code
 // under test.
-func predictDisk(capacity int64, sticky *error, f *SecFault, fired *bool, off int64, m int64) (k int64, err error) {
+func predictDisk(errInjected error, capacity int64, sticky *error, f *SecFault, fired *bool, off int64, m int64) (k int64, err error) {
 	k = m
 	if m > 0 {
 		switch {
@@ -423,7 +439,7 @@ func predictDisk(capacity int64, sticky *error, f *SecFault, fired *bool, off in
 				if f.Sticky {
 					*sticky = errInjected
 				}
-			case "short_nil":
+			case "short_nil", "short_nil_each":
 				if f.Budget < m {
 					k = f.Budget
 					*fired = true
@@ -448,6 +464,15 @@ func predictDisk(capacity int64, sticky *error, f *SecFault, fired *bool, off in
 
 func (Section) Execute(pl engine.Plan, c *engine.RunCtx) *engine.Failure {
 	p := pl.(*SectionPlan)
+	errInjected := error(simio.ErrInjected)
+	switch p.ErrKind {
+	case "shortwrite":
+		errInjected = io.ErrShortWrite
+	case "eof":
+		errInjected = io.EOF
+	case "closedpipe":
+		errInjected = io.ErrClosedPipe
+	}
 	disk := simio.NewDisk()
 	disk.Capacity = p.Capacity
 	sch := engine.NewSched(p.Sched)
@@ -576,7 +601,7 @@ func (Section) Execute(pl engine.Plan, c *engine.RunCtx) *engine.Failure {
 					var k int64
 					var derr error
 					if !refused {
-						k, derr = predictDisk(p.Capacity, &m.sticky, op.Fault, &fired, at, mm)
+						k, derr = predictDisk(errInjected, p.Capacity, &m.sticky, op.Fault, &fired, at, mm)
 					}
 					recv := h.OpRecv()
 					// Two fault kinds are not byte-positions but CALL outcomes: "withfull"
@@ -589,13 +614,13 @@ func (Section) Execute(pl engine.Plan, c *engine.RunCtx) *engine.Failure {
 					// offered bytes, 1..mm) and still checks placement, the returned
 					// count, the cursor, and — unless held back below — the error.
 					observedK := false
-					if fired && op.Fault != nil && (op.Fault.Kind == "withfull" || op.Fault.Kind == "short_nil") {
+					if fired && op.Fault != nil && (op.Fault.Kind == "withfull" || op.Fault.Kind == "short_nil" || op.Fault.Kind == "short_nil_each") {
 						acc := int64(0)
 						for _, rc := range recv {
 							acc += int64(len(rc.Data))
 						}
 						lo := int64(1)
-						if op.Fault.Kind == "short_nil" {
+						if op.Fault.Kind == "short_nil" || op.Fault.Kind == "short_nil_each" {
 							lo = op.Fault.Budget
 						}
 						if acc >= lo && acc <= mm {
@@ -649,10 +674,24 @@ func (Section) Execute(pl engine.Plan, c *engine.RunCtx) *engine.Failure {
 						return
 					}
 					// --- C18.err: error class, by cause
-					if observedK && op.Fault.Kind == "short_nil" && k < mm {
+					if observedK && (op.Fault.Kind == "short_nil" || op.Fault.Kind == "short_nil_each") && k < mm {
 						// a short count with a nil error from the underlying writer: what
 						// error (if any) the section then reports is not stated
-					} else if op.Len > 0 { // the error value of a zero-length request is held back
+					} else if op.Len == 0 && refused && at < m.limit && at >= m.base {
+						// an EMPTY request that lies inside THIS section but at/after the end
+						// of the inner section it is nested over: the refusal could only come
+						// from the underlying (inner) writer, and whether an empty request is
+						// forwarded to the underlying writer at all is open — held back
+					} else if op.Len == 0 && op.Op == "writeat" && op.Rel < 0 {
+						// an EMPTY request at a negative offset: neither "at or beyond the
+						// section end" nor inside the section — held back
+					} else {
+						// Zero-length requests included: "io.ErrShortWrite is returned
+						// exactly when a request is truncated by, or STARTS AT OR BEYOND, the
+						// section end" has no length qualifier — an empty Write with the
+						// cursor at the end is refused, one inside the section is not. (The
+						// simulated disk never fails a zero-length call, so whether an empty
+						// request is forwarded to the underlying writer stays unobserved.)
 						var want error
 						switch {
 						case refused:
@@ -734,7 +773,14 @@ func (Section) Execute(pl engine.Plan, c *engine.RunCtx) *engine.Failure {
 				}
 				c.LibCalls++
 				// --- C18.cursor: the observer seek reports the model's cursor
-				if sw != nil {
+				observe := sw != nil
+				switch w.Observe {
+				case "never":
+					observe = false
+				case "some":
+					observe = observe && engine.H(p.ContentSeed, uint64(step))%2 == 0
+				}
+				if observe {
 					pos, err := sw.Seek(0, io.SeekCurrent)
 					if err != nil || pos != m.cur-m.base {
 						fail = engine.Failf("C18.cursor", step, "after %s(len=%d rel=%d whence=%d): Seek(0,SeekCurrent) = (%d,%v), model cursor %d", op.Op, op.Len, op.Rel, op.Whence, pos, err, m.cur-m.base)
@@ -838,6 +884,11 @@ func (Section) Shrink(pl engine.Plan) []engine.Plan {
 	if p.Capacity >= 0 {
 		q := clone()
 		q.Capacity = -1
+		out = append(out, q)
+	}
+	if p.ErrKind != "" {
+		q := clone()
+		q.ErrKind = ""
 		out = append(out, q)
 	}
 	for wi, w := range p.Writers {
